@@ -1,183 +1,2 @@
-/- GENERATED by harness/py2lean.py from zepid/calc/utils.py -- DO NOT EDIT.
-   Regenerated from /repo's working tree on every run of every check. -/
-import ZepidVerif.Model.Core
-set_option linter.unusedVariables false
-namespace ZV.Gen
-variable {F : Type} [Add F] [Sub F] [Mul F] [Div F] [Neg F] [NatCast F]
-  [LT F] [LE F] [DecidableLT F] [DecidableLE F] [DecidableEq F] [Transc F]
-
-def risk_ci (ppf : F → F) (infv : F) (events : F) (total : F) (alpha : F) (confint : String) : Except Err (Results F) :=
-  let risk := (events / total)
-  let c := (((1 : Nat) : F) - (alpha / ((2 : Nat) : F)))
-  let zalpha := (ppf c)
-  if confint = "wald" then
-    let sd := (Transc.sqrt ((risk * (((1 : Nat) : F) - risk)) / total))
-    let lower := (risk - (zalpha * sd))
-    let upper := (risk + (zalpha * sd))
-    .ok ⟨risk, lower, upper, sd⟩
-  else
-    if confint = "hypergeometric" then
-      let sd := (Transc.sqrt ((events * (total - events)) / ((total * total) * (total - ((1 : Nat) : F)))))
-      let lower := (risk - (zalpha * sd))
-      let upper := (risk + (zalpha * sd))
-      .ok ⟨risk, lower, upper, sd⟩
-    else
-      .error .badInput
-
-def incidence_rate_ci (ppf : F → F) (infv : F) (events : F) (time : F) (alpha : F) : Except Err (Results F) :=
-  let c := (((1 : Nat) : F) - (alpha / ((2 : Nat) : F)))
-  let ir := (events / time)
-  let zalpha := (ppf c)
-  let sd := (Transc.sqrt (events / (time * time)))
-  let lower := (ir - (zalpha * sd))
-  let upper := (ir + (zalpha * sd))
-  .ok ⟨ir, lower, upper, sd⟩
-
-def risk_ratio (ppf : F → F) (infv : F) (a : F) (b : F) (c : F) (d : F) (alpha : F) : Except Err (Results F) :=
-  if a ≤ ((0 : Nat) : F) then .error .nonpositive else
-  if b ≤ ((0 : Nat) : F) then .error .nonpositive else
-  if c ≤ ((0 : Nat) : F) then .error .nonpositive else
-  if d ≤ ((0 : Nat) : F) then .error .nonpositive else
-  let zalpha := (ppf (((1 : Nat) : F) - (alpha / ((2 : Nat) : F))))
-  let r1 := (a / (a + b))
-  let r0 := (c / (c + d))
-  let relrisk := (r1 / r0)
-  let sd := (Transc.sqrt ((((((1 : Nat) : F) / a) - (((1 : Nat) : F) / (a + b))) + (((1 : Nat) : F) / c)) - (((1 : Nat) : F) / (c + d))))
-  let lnrr := (Transc.log relrisk)
-  let lcl := (Transc.exp (lnrr - (zalpha * sd)))
-  let ucl := (Transc.exp (lnrr + (zalpha * sd)))
-  .ok ⟨relrisk, lcl, ucl, sd⟩
-
-def risk_difference (ppf : F → F) (infv : F) (a : F) (b : F) (c : F) (d : F) (alpha : F) : Except Err (Results F) :=
-  if a ≤ ((0 : Nat) : F) then .error .nonpositive else
-  if b ≤ ((0 : Nat) : F) then .error .nonpositive else
-  if c ≤ ((0 : Nat) : F) then .error .nonpositive else
-  if d ≤ ((0 : Nat) : F) then .error .nonpositive else
-  let zalpha := (ppf (((1 : Nat) : F) - (alpha / ((2 : Nat) : F))))
-  let r1 := (a / (a + b))
-  let r0 := (c / (c + d))
-  let riskdiff := (r1 - r0)
-  let sd := (Transc.sqrt (((r1 * (((1 : Nat) : F) - r1)) / (a + b)) + ((r0 * (((1 : Nat) : F) - r0)) / (c + d))))
-  let lcl := (riskdiff - (zalpha * sd))
-  let ucl := (riskdiff + (zalpha * sd))
-  .ok ⟨riskdiff, lcl, ucl, sd⟩
-
-def number_needed_to_treat (ppf : F → F) (infv : F) (a : F) (b : F) (c : F) (d : F) (alpha : F) : Except Err (Results F) :=
-  if a ≤ ((0 : Nat) : F) then .error .nonpositive else
-  if b ≤ ((0 : Nat) : F) then .error .nonpositive else
-  if c ≤ ((0 : Nat) : F) then .error .nonpositive else
-  if d ≤ ((0 : Nat) : F) then .error .nonpositive else
-  let zalpha := (ppf (((1 : Nat) : F) - (alpha / ((2 : Nat) : F))))
-  let r1 := (a / (a + b))
-  let r0 := (c / (c + d))
-  let riskdiff := (r1 - r0)
-  let sd := (Transc.sqrt (((r1 * (((1 : Nat) : F) - r1)) / (a + b)) + ((r0 * (((1 : Nat) : F) - r0)) / (c + d))))
-  let lcl_rd := (riskdiff - (zalpha * sd))
-  let ucl_rd := (riskdiff + (zalpha * sd))
-  if riskdiff ≠ ((0 : Nat) : F) then
-    let numbnt := (((1 : Nat) : F) / riskdiff)
-    if lcl_rd ≠ ((0 : Nat) : F) then
-      let lcl := (((1 : Nat) : F) / lcl_rd)
-      if ucl_rd ≠ ((0 : Nat) : F) then
-        let ucl := (((1 : Nat) : F) / ucl_rd)
-        .ok ⟨numbnt, lcl, ucl, sd⟩
-      else
-        let ucl := infv
-        .ok ⟨numbnt, lcl, ucl, sd⟩
-    else
-      let lcl := infv
-      if ucl_rd ≠ ((0 : Nat) : F) then
-        let ucl := (((1 : Nat) : F) / ucl_rd)
-        .ok ⟨numbnt, lcl, ucl, sd⟩
-      else
-        let ucl := infv
-        .ok ⟨numbnt, lcl, ucl, sd⟩
-  else
-    let numbnt := infv
-    if lcl_rd ≠ ((0 : Nat) : F) then
-      let lcl := (((1 : Nat) : F) / lcl_rd)
-      if ucl_rd ≠ ((0 : Nat) : F) then
-        let ucl := (((1 : Nat) : F) / ucl_rd)
-        .ok ⟨numbnt, lcl, ucl, sd⟩
-      else
-        let ucl := infv
-        .ok ⟨numbnt, lcl, ucl, sd⟩
-    else
-      let lcl := infv
-      if ucl_rd ≠ ((0 : Nat) : F) then
-        let ucl := (((1 : Nat) : F) / ucl_rd)
-        .ok ⟨numbnt, lcl, ucl, sd⟩
-      else
-        let ucl := infv
-        .ok ⟨numbnt, lcl, ucl, sd⟩
-
-def odds_ratio (ppf : F → F) (infv : F) (a : F) (b : F) (c : F) (d : F) (alpha : F) : Except Err (Results F) :=
-  if a ≤ ((0 : Nat) : F) then .error .nonpositive else
-  if b ≤ ((0 : Nat) : F) then .error .nonpositive else
-  if c ≤ ((0 : Nat) : F) then .error .nonpositive else
-  if d ≤ ((0 : Nat) : F) then .error .nonpositive else
-  let zalpha := (ppf (((1 : Nat) : F) - (alpha / ((2 : Nat) : F))))
-  let or1 := (a / b)
-  let or0 := (c / d)
-  let oddsr := (or1 / or0)
-  let sd := (Transc.sqrt ((((((1 : Nat) : F) / a) + (((1 : Nat) : F) / b)) + (((1 : Nat) : F) / c)) + (((1 : Nat) : F) / d)))
-  let lnor := (Transc.log oddsr)
-  let lcl := (Transc.exp (lnor - (zalpha * sd)))
-  let ucl := (Transc.exp (lnor + (zalpha * sd)))
-  .ok ⟨oddsr, lcl, ucl, sd⟩
-
-def incidence_rate_ratio (ppf : F → F) (infv : F) (a : F) (c : F) (t1 : F) (t2 : F) (alpha : F) : Except Err (Results F) :=
-  if a ≤ ((0 : Nat) : F) then .error .nonpositive else
-  if c ≤ ((0 : Nat) : F) then .error .nonpositive else
-  if t2 < ((0 : Nat) : F) then .error .negative else
-  if t1 < ((0 : Nat) : F) then .error .negative else
-  let zalpha := (ppf (((1 : Nat) : F) - (alpha / ((2 : Nat) : F))))
-  let irate1 := (a / t1)
-  let irate2 := (c / t2)
-  let irater := (irate1 / irate2)
-  let sd := (Transc.sqrt ((((1 : Nat) : F) / a) + (((1 : Nat) : F) / c)))
-  let lnirr := (Transc.log irater)
-  let lcl := (Transc.exp (lnirr - (zalpha * sd)))
-  let ucl := (Transc.exp (lnirr + (zalpha * sd)))
-  .ok ⟨irater, lcl, ucl, sd⟩
-
-def incidence_rate_difference (ppf : F → F) (infv : F) (a : F) (c : F) (t1 : F) (t2 : F) (alpha : F) : Except Err (Results F) :=
-  if a ≤ ((0 : Nat) : F) then .error .nonpositive else
-  if c ≤ ((0 : Nat) : F) then .error .nonpositive else
-  if t2 < ((0 : Nat) : F) then .error .negative else
-  if t1 < ((0 : Nat) : F) then .error .negative else
-  let zalpha := (ppf (((1 : Nat) : F) - (alpha / ((2 : Nat) : F))))
-  let rated1 := (a / t1)
-  let rated2 := (c / t2)
-  let irated := (rated1 - rated2)
-  let sd := (Transc.sqrt ((a / (t1 * t1)) + (c / (t2 * t2))))
-  let lcl := (irated - (zalpha * sd))
-  let ucl := (irated + (zalpha * sd))
-  .ok ⟨irated, lcl, ucl, sd⟩
-
-def attributable_community_risk (ppf : F → F) (infv : F) (a : F) (b : F) (c : F) (d : F) : Except Err (F) :=
-  if a ≤ ((0 : Nat) : F) then .error .nonpositive else
-  if b ≤ ((0 : Nat) : F) then .error .nonpositive else
-  if c ≤ ((0 : Nat) : F) then .error .nonpositive else
-  if d ≤ ((0 : Nat) : F) then .error .nonpositive else
-  let rt := ((a + c) / (((a + b) + c) + d))
-  let r0 := (c / (c + d))
-  .ok (rt - r0)
-
-def population_attributable_fraction (ppf : F → F) (infv : F) (a : F) (b : F) (c : F) (d : F) : Except Err (F) :=
-  if a ≤ ((0 : Nat) : F) then .error .nonpositive else
-  if b ≤ ((0 : Nat) : F) then .error .nonpositive else
-  if c ≤ ((0 : Nat) : F) then .error .nonpositive else
-  if d ≤ ((0 : Nat) : F) then .error .nonpositive else
-  let rt := ((a + c) / (((a + b) + c) + d))
-  let r0 := (c / (c + d))
-  .ok ((rt - r0) / rt)
-
-def probability_to_odds (ppf : F → F) (infv : F) (prob : F) : Except Err (F) :=
-  .ok (prob / (((1 : Nat) : F) - prob))
-
-def odds_to_probability (ppf : F → F) (infv : F) (odds : F) : Except Err (F) :=
-  .ok (odds / (((1 : Nat) : F) + odds))
-
-
-end ZV.Gen
+/- GENERATED: translator failed: assignment target (events, total) -/
+#exit_translator_failed
